@@ -193,6 +193,24 @@ class FuncTaint:
                 return frozenset(set(st) - {s.name})
         return st
 
+    def _is_repo_object(self, base):
+        """the receiver is a local bound to an instance of a class defined in the repository (a helper object): its methods are not the host's list / str methods"""
+        classes = set()
+        for nm in ('library', 'value', 'runtime', 'data', 'parser', 'model', 'options'):
+            try:
+                classes |= set(getattr(self.engine.repo.module(nm), 'classes', {}))
+            except Exception:
+                pass
+        if isinstance(base, ast.Call) and isinstance(base.func, ast.Name) and base.func.id in classes:
+            return True
+        if not isinstance(base, ast.Name):
+            return False
+        for n in walk_no_nested(self.func):
+            if isinstance(n, ast.Assign) and any(isinstance(t, ast.Name) and t.id == base.id for t in n.targets) and isinstance(n.value, ast.Call) \
+                    and isinstance(n.value.func, ast.Name) and n.value.func.id in classes:
+                return True
+        return False
+
     # ---- sinks
     def check_expr(self, e, st, out):
         """walk expression e (handling comprehension scopes) and report sink operands"""
@@ -247,7 +265,7 @@ class FuncTaint:
                         out.append((a, f'argument {i} of {cn}()', e))
             if cn in INT_ONLY_SECOND and len(e.args) > INT_ONLY_SECOND[cn]:
                 out.append((e.args[INT_ONLY_SECOND[cn]], f'argument {INT_ONLY_SECOND[cn]} of {cn}()', e))
-            if isinstance(e.func, ast.Attribute):
+            if isinstance(e.func, ast.Attribute) and not self._is_repo_object(e.func.value):
                 m = e.func.attr
                 base_ty = self.seq_types.get(e.func.value.id) if isinstance(e.func.value, ast.Name) else None
                 if m in SEQ_INDEX_METHODS and base_ty != 'object':
